@@ -53,6 +53,10 @@ type hsCase struct {
 	Variant  int    `json:"variant"`
 	TLSPools int    `json:"tls_pools"` // which pools a caller-supplied TLS configuration has (0 both, 1 roots only, 2 client CAs only, 3 none)
 	Offers   string `json:"offers"`
+	// Long = 1: the fourth field is padded with spaces so that the first 64 KiB of the line are a line of their own
+	// (four fields); the rest of the line follows. LogBuf > 0: PluginLogBufferSize, with a Unix address longer than it.
+	Long   int `json:"long,omitempty"`
+	LogBuf int `json:"log_buf,omitempty"`
 	Raw      string `json:"raw,omitempty"` // set by the driver: the concrete line
 }
 
@@ -154,6 +158,15 @@ func concretize(c hsCase) (raw string, addrText string, version int, offered []i
 	case "garbage":
 		mux = pick(v, "yes", "2", "tru", "y", "on")
 	}
+	if c.LogBuf > 0 && netw == "unix" {
+		addr = "/nonexistent/" + strings.Repeat("d", 90) + "/verif.sock"
+	}
+	if c.Long == 1 && l.N >= 5 && l.Ws == "none" {
+		head := len(core) + len(ver) + len(netw) + len(addr) + 3
+		if head < 65536 {
+			addr += strings.Repeat(" ", 65536-head)
+		}
+	}
 	parts := []string{core, ver, netw, addr, proto, cert, mux, "extra8"}[:l.N]
 	raw = strings.Join(parts, "|")
 	switch l.Ws {
@@ -167,6 +180,14 @@ func concretize(c hsCase) (raw string, addrText string, version int, offered []i
 	return raw, addr, version, offered
 }
 
+// shortRaw keeps the observation readable for lines padded to 64 KiB
+func shortRaw(s string) string {
+	if len(s) > 400 {
+		return s[:200] + fmt.Sprintf("...(%d bytes)...", len(s)-400) + s[len(s)-200:]
+	}
+	return s
+}
+
 type nopPlugin struct{ plugin.NetRPCUnsupportedPlugin }
 
 func hsClientConfig(c hsCase, sr *ScriptedRunner, tmp string) *plugin.ClientConfig {
@@ -178,6 +199,9 @@ func hsClientConfig(c hsCase, sr *ScriptedRunner, tmp string) *plugin.ClientConf
 		Logger:           hclog.NewNullLogger(),
 		UnixSocketConfig: &plugin.UnixSocketConfig{TempDir: tmp},
 		SkipHostEnv:      true,
+	}
+	if c.LogBuf > 0 {
+		cfg.PluginLogBufferSize = c.LogBuf
 	}
 	set := plugin.PluginSet{"p": &nopPlugin{}}
 	if c.Offers == "versioned" {
@@ -388,7 +412,7 @@ func TestHandshakeCases(t *testing.T) {
 				cc, o := runHandshakeCase(c, tmp)
 				cw.end(c.Name)
 				ow.write(map[string]interface{}{"name": cc.Name, "line": cc.Line, "cfg": cc.Cfg, "variant": cc.Variant,
-					"offers": cc.Offers, "raw": cc.Raw, "out": o})
+					"offers": cc.Offers, "raw": shortRaw(cc.Raw), "long": cc.Long, "log_buf": cc.LogBuf, "out": o})
 			}
 		}()
 	}
